@@ -87,8 +87,8 @@ fn fingerprint<F: ark_ff::PrimeField>(s: &Sponge<F>) -> (Vec<F>, Vec<u8>) {
     (f, by)
 }
 
-fn build_ctx<S: Sch>(rec: &mut Rec) -> Option<Ctx<S>> {
-    let cfg = slice_b::<S>();
+fn build_ctx<S: Sch>(rec: &mut Rec, cfg: &KeyCfg) -> Option<Ctx<S>> {
+    let cfg = cfg.clone();
     let keys = build_keys::<S>(&cfg, rec.seed).ok()?;
     // non-constant polynomials only (the property's own restriction for the binding half)
     let mut polys: Vec<LP<S>> = slice_b_polys::<S>(&cfg, rec.seed).into_iter().take(2).collect();
@@ -223,17 +223,28 @@ fn dfs<S: Sch>(rec: &mut Rec, ctx: &Ctx<S>, unit: &str, pre: usize, h: &mut Hist
 }
 
 pub fn scheme<S: Sch>(rec: &mut Rec, depth: usize) {
+    scheme_with::<S>(rec, depth, &slice_b::<S>(), "");
+    // the linear codes once more with a key built without the well-formedness check: the proof then
+    // contains no squeezed combination vector, only the column positions bind it to the transcript
+    if S::NAME == "LIG" || S::NAME == "MLL" || S::NAME == "BRK" {
+        let mut cfg = slice_b::<S>();
+        cfg.lc = Some((128, if S::NAME == "BRK" { 2 } else { 4 }, false));
+        scheme_with::<S>(rec, depth.min(3).max(2) - if rec.thorough() { 0 } else { 1 }, &cfg, "/nowf");
+    }
+}
+
+pub fn scheme_with<S: Sch>(rec: &mut Rec, depth: usize, cfg: &KeyCfg, tag: &str) {
     // shard units: (pre-state, first operation)
     let mut ctx: Option<Ctx<S>> = None;
     for pre in 0..3usize {
         for (oi, op) in OPS.iter().enumerate() {
-            let id = format!("{}/H/depth<={}/pre={}/first={:?}", S::NAME, depth, pre, op);
+            let id = format!("{}{}/H/depth<={}/pre={}/first={:?}", S::NAME, tag, depth, pre, op);
             let unit = id.clone();
             if !rec.take(&id) {
                 continue;
             }
             if ctx.is_none() {
-                ctx = build_ctx::<S>(rec);
+                ctx = build_ctx::<S>(rec, cfg);
             }
             let ctx = match &ctx {
                 Some(c) => c,
